@@ -1,13 +1,13 @@
 CONSTANTS
-  NC = 2
-  NL = 1
-  WRun = {}
-  WTerm = {}
+  NC = 1
+  NL = 0
+  WRun = {1}
+  WTerm = {2}
   QCap = 4
   MaxStart = 1
   ParentCancels = TRUE
   Presents = {{"start","run","stop"}}
-  RunModes = {"any","idle","timer"}
+  RunModes = {"timer"}
   GuardNilCancel = FALSE
 INIT GInit
 NEXT GNext
